@@ -97,6 +97,10 @@ func (pa *pkgAn) freshOf(fd *ast.FuncDecl) *freshInfo {
 				if id, ok := x.Fun.(*ast.Ident); ok && id.Name == "close" && !inLit && (fi.barrier == token.NoPos || x.Pos() < fi.barrier) {
 					fi.barrier = x.Pos()
 				}
+				// a timer call starts a goroutine like a go statement does
+				if pa.timerSpawn(x) != nil && !inLit && (fi.barrier == token.NoPos || x.Pos() < fi.barrier) {
+					fi.barrier = x.Pos()
+				}
 			case *ast.AssignStmt:
 				if len(x.Lhs) == len(x.Rhs) {
 					for i := range x.Lhs {
